@@ -1371,7 +1371,8 @@ async fn main() {
     let decoys: Vec<SaitoPublicKey> = (0..3).map(|j| keypair(70 + j as u8).0).collect();
     // key j spends one genesis output in every block with more than j transfers (at most 255
     // issuance transactions fit: Block::generate_consensus_values counts them in a u8)
-    let need: Vec<usize> = (0..nk).map(|j| 2 * max_n.saturating_sub(j) + 3).collect();
+    // (+4: the boundary-size blocks below take one more output of keys 0..3 each)
+    let need: Vec<usize> = (0..nk).map(|j| 2 * max_n.saturating_sub(j) + 3 + if j < 4 { 4 } else { 0 }).collect();
     let mut base = vec![0usize; nk];
     let mut iss = vec![(node.pk, 10_000_000u64)];
     for j in 0..nk {
@@ -1484,6 +1485,86 @@ async fn main() {
             Err(e) => pre_fail(&mut ctx, &format!("block of two-output transfers cannot be built: {}", e)),
         }
     }
+    // accepted blocks with transactions of boundary size: exactly 255 outputs and / or 255 inputs
+    // (the largest counts the wire format allows: slip_index is a u8 and the codec accepts up to
+    // u8::MAX slips), one of the outputs or all but one paying a key that can be listed, next to
+    // ordinary transfers whose message payloads have sizes around the u8 / u16 limits.  Which of
+    // the transfers is the big one, which of its outputs pays the single key and the payload
+    // sizes are drawn from the PRNG (the position in the block is Block::create's).
+    // bblocks: (name, block, per transfer: keys through which it can be made relevant)
+    let mut bblocks: Vec<(String, Block, Vec<(SaitoPublicKey, Vec<SaitoPublicKey>)>)> = vec![];
+    if chain_ok {
+        let sinks: Vec<_> = (0..4).map(|j| keypair(80 + j as u8)).collect();
+        let sizes: [usize; 8] = [0, 1, 254, 255, 256, 257, 65535, 65536];
+        // the 255 outputs to sinks[0] of the first block are the 255 inputs of the second
+        let mut sink_outputs: Vec<Slip> = vec![];
+        for bi in 0..4usize {
+            let gt = bi % 2 == 1;
+            let m = if gt { 3 } else { 4 };
+            let big = rng.below(m as u64) as usize;
+            let any = rng.below(255) as usize;
+            let q = *rng.pick(&[0usize, 1, 127, 253, 254, any]);
+            let ts = parent.timestamp + 120_000;
+            let mut txs = vec![];
+            let mut listing: Vec<(SaitoPublicKey, Vec<SaitoPublicKey>)> = vec![];
+            let mut shape = String::new();
+            for j in 0..m {
+                let inp = outputs_of(&g, take(j));
+                if j != big {
+                    let mut tx = make_tx(&inp[0..1], &[(tk[j].0, inp[0].amount - 1000)], &fk[j].1, ts);
+                    tx.data = vec![rng.below(256) as u8; *rng.pick(&sizes)];
+                    tx.sign(&fk[j].1);
+                    shape.push_str(&format!("[1 in, 1 out, {} bytes]", tx.data.len()));
+                    listing.push((tx.signature[0..33].try_into().unwrap(), vec![tk[j].0, fk[j].0]));
+                    txs.push(tx);
+                    continue;
+                }
+                // the big one
+                let (inputs, signer, payer_key): (Vec<Slip>, _, SaitoPublicKey) = if bi == 1 && sink_outputs.len() == 255 {
+                    (sink_outputs.clone(), sinks[0].1, sinks[0].0)
+                } else {
+                    (inp[0..1].to_vec(), fk[j].1, fk[j].0)
+                };
+                let total: u64 = inputs.iter().map(|s| s.amount).sum();
+                let each = (total - 1000) / 255;
+                let all_to_sink = bi == 0;
+                let outs: Vec<(SaitoPublicKey, u64)> = (0..255usize)
+                    .map(|i| if i == q && !all_to_sink { (tk[j].0, each) } else { (sinks[bi].0, each) })
+                    .collect();
+                let mut tx = make_tx(&inputs, &outs, &signer, ts);
+                if bi >= 2 {
+                    tx.data = vec![rng.below(256) as u8; *rng.pick(&sizes)];
+                    tx.sign(&signer);
+                }
+                shape.push_str(&format!("[{} in, {} out (single key at {}), {} bytes]", tx.from.len(), tx.to.len(), if all_to_sink { "none".to_string() } else { q.to_string() }, tx.data.len()));
+                let mut via = vec![payer_key, sinks[bi].0];
+                if !all_to_sink {
+                    via.insert(0, tk[j].0);
+                }
+                listing.push((tx.signature[0..33].try_into().unwrap(), via));
+                txs.push(tx);
+            }
+            let name = format!("boundary block {}: gt={} {}", bi, gt, shape);
+            match make_block(&node, parent.hash, ts, txs, gt, 31 + bi as u64).await {
+                Ok(b) => {
+                    let r = node.add_block(b.clone()).await;
+                    ctx.summary.count("boundary_block_added", &format!("{:?}", r));
+                    if r == AddClass::OnChain && b.transactions.iter().filter(|t| t.transaction_type == TransactionType::Normal).count() == m {
+                        parent = b.clone();
+                        if bi == 0 {
+                            if let Some(t) = b.transactions.iter().find(|t| t.to.len() == 255) {
+                                sink_outputs = t.to.clone();
+                            }
+                        }
+                        bblocks.push((name, b, listing));
+                    } else {
+                        pre_fail(&mut ctx, &format!("{} is not accepted on the chain with all its transfers: {:?}", name, r));
+                    }
+                }
+                Err(e) => pre_fail(&mut ctx, &format!("{} cannot be built: {}", name, e)),
+            }
+        }
+    }
     // block whose transactions were reordered after signing (merkle root stale): accepted by the
     // pinned tree (C06 defect), rejected since fix 22133df
     let mut stale_unaccepted: Option<Block> = None;
@@ -1569,6 +1650,70 @@ async fn main() {
                     ks.reverse();
                 }
                 ctx.run(kind, name, &full, &ks, true);
+            }
+        }
+    }
+
+    // ------------------------------------------------------------ boundary-size transactions
+    for (name, stored, listing) in &bblocks {
+        let bytes = stored.serialize_for_net(BlockType::Full);
+        let mut full = match Block::deserialize_from_net(&bytes) {
+            Ok(f) => f,
+            Err(_) => {
+                // reported, and the block the producing node holds in memory is projected instead, so
+                // that the failure is also stated in the property's terms by the oracle
+                pre_fail(&mut ctx, &format!("{}: the stored block does not decode from its own serialize_for_net bytes", name));
+                stored.clone()
+            }
+        };
+        if full.generate().is_err() || full.hash != stored.hash {
+            pre_fail(&mut ctx, &format!("{}: the block read back from its bytes does not generate to the stored block's hash", name));
+            continue;
+        }
+        // transfers in block order
+        let order: Vec<&Vec<SaitoPublicKey>> = full
+            .transactions
+            .iter()
+            .filter(|t| t.transaction_type == TransactionType::Normal)
+            .filter_map(|t| listing.iter().find(|(sig, _)| t.signature[0..33] == sig[..]).map(|(_, via)| via))
+            .collect();
+        let m = order.len();
+        if m != listing.len() {
+            pre_fail(&mut ctx, &format!("{}: not all of its transfers are in the block", name));
+            continue;
+        }
+        let has_special = full.transactions.len() > m;
+        for mask in 0u32..(1u32 << m) {
+            let node_variants: &[bool] = if has_special { &[false, true] } else { &[false] };
+            for with_node in node_variants {
+                let mut ks: Vec<SaitoPublicKey> = vec![];
+                for (bit, via) in order.iter().enumerate() {
+                    if mask & (1 << bit) != 0 {
+                        ks.push(*rng.pick(via.as_slice()));
+                        if rng.chance(1, 4) {
+                            ks.push(*rng.pick(via.as_slice()));
+                        }
+                    }
+                }
+                if *with_node {
+                    ks.push(node.pk);
+                }
+                if rng.chance(1, 3) {
+                    ks.insert(rng.below(ks.len() as u64 + 1) as usize, *rng.pick(&decoys));
+                }
+                for t in &full.transactions {
+                    if t.to.len() == 255 || t.from.len() == 255 {
+                        let kept = touches(t, &ks);
+                        ctx.summary.count(
+                            "boundary_tx",
+                            &format!("{} inputs, {} outputs, {}", t.from.len(), t.to.len(), if kept { "kept" } else { "omitted" }),
+                        );
+                    }
+                    if t.transaction_type == TransactionType::Normal {
+                        ctx.summary.count("boundary_block_payload_bytes", &format!("{:05}", t.data.len()));
+                    }
+                }
+                ctx.run("chain-boundary", name, &full, &ks, true);
             }
         }
     }
